@@ -14,6 +14,7 @@ import (
 	"verifharness/canon"
 	"verifharness/fw"
 	"verifharness/gen"
+	"verifharness/hx"
 	"verifharness/refmal"
 )
 
@@ -121,6 +122,23 @@ func runC18(c *fw.Ctx) {
 		"(do (def a (atom 0)) (def bump (fn (n) (if (< n 1) @a (do (swap! a inc) (bump (- n 1)))))) (trace! (bump %d)))",
 		"(do (def guarded (fn (n) (try (if (< n 1) (throw :bottom) (guarded (- n 1))) (catch e (do (if (< n 3) (trace! (list :unwinding n))) (throw e)))))) (try (guarded (/ %d 1000)) (catch e (trace! e))))", // try nests stay shallow: every level takes a fifth of the remaining deadline, so deep nests time out by design
 	}
+	// builtins that fail (after their effect, before it, in handlers, uncaught): a failing call is handed once per evaluation
+	failing := []string{
+		"(do (try (trace-then-fail! :a) (catch e (trace! :ha))) (def f (fn (k) (try (trace-then-fail! k) (catch e (do (trace! :hf) k)) (finally (trace! :fin))))) (trace! (f :b)) (trace! (f :c)))",
+		"(do (try (nth [1 2] (do (trace! :idx) 5)) (catch e (trace! :hn))) (try (throw (trace! :thrown)) (catch e (trace! (list :caught e)))) (trace! :end))",
+		"(do (defmacro failing-m (fn (x) (list (quote do) (list (quote trace-then-fail!) x)))) (try (failing-m :m1) (catch e (trace! :hm))) (trace! :before-uncaught) (trace-then-fail! :uncaught) (trace! :never))",
+		"(do (def g (fn (n) (if (< n 1) (trace-then-fail! :bottom) (do (trace! n) (g (- n 1)))))) (try (g 5) (catch e (trace! :hg))) (map (fn (k) (try (trace-then-fail! k) (catch e k))) [:m-a :m-b]))",
+	}
+	for fi, text := range failing {
+		if !c.Mine(fi) {
+			continue
+		}
+		text := text
+		c.Case(fmt.Sprintf("failing-builtins-%d", fi), text, func() {
+			c.Count("failing_builtin_programs", 1)
+			c18Compare(c, b, scripts, sr, text, fmt.Sprintf("failing-%d", fi), map[string]bool{})
+		})
+	}
 	for li, tmpl := range long {
 		for _, n := range []int{4000, 6000, 12000} {
 			if !c.Mine(li*3 + n/5000) {
@@ -161,7 +179,7 @@ func c18Compare(c *fw.Ctx, b *diffBase, scripts []c18Script, sr *rand.Rand, text
 			calls++
 			// a handed (trace! :k) is about to be evaluated: its effect must follow (checked after the run)
 			if l, ok := a.(types.List); ok && len(l.Val) == 2 {
-				if h, ok := l.Val[0].(types.Symbol); ok && h.Val == "trace!" {
+				if h, ok := l.Val[0].(types.Symbol); ok && (h.Val == "trace!" || h.Val == "trace-then-fail!") {
 					if k, ok := l.Val[1].(string); ok && strings.HasPrefix(k, canon.Marker) {
 						handedTrace[k]++
 					}
@@ -197,7 +215,7 @@ func c18Compare(c *fw.Ctx, b *diffBase, scripts []c18Script, sr *rand.Rand, text
 			c.Violate(fw.Violation{Key: "unresolvable-symbol", What: "the callback was handed symbol " + unresolved + " together with a scope in which it does not resolve", Input: in})
 			return
 		}
-		if rr.Err == nil {
+		if rr.Err == nil || rr.Class != hx.ETimeout {
 			seen := map[string]int{}
 			for _, ev := range rr.Trace {
 				if ev.K == canon.Kw {
